@@ -194,7 +194,12 @@ type AnExpression struct {
 	Expression ExpressionInterface
 }
 
-func (e *AnExpression) MarshalXML(en *xml.Encoder, start xml.StartElement) (err error) {
+// (value receiver: several elements hold their expression by value - the
+// condition of a conditional event definition, loopCondition, from/to of an
+// assignment - and encoding/xml only finds a pointer-receiver marshaller on
+// addressable values; those fields were written without xsi:type, or as an
+// empty element when no expression was present)
+func (e AnExpression) MarshalXML(en *xml.Encoder, start xml.StartElement) (err error) {
 	switch tt := e.Expression.(type) {
 	case *FormalExpression:
 		start.Attr = append(start.Attr, xml.Attr{
